@@ -168,8 +168,34 @@ func delayedSwitchRule(m *mectx, c *Ctx, R func(string) string) {
 		c.fail(R("C14.revalidate"), "delayed switch: decision", p.pos(fn.Pos()), "the delayed-switch timer stores current without looking up both its target and the current endpoint in its own critical section")
 		return
 	}
-	isF := func(v ssa.Value) bool { return isExtractOf(stripConv(v), lkF, 0) }
-	isC := func(v ssa.Value) bool { return isExtractOf(stripConv(v), lkC, 0) }
+	// the looked-up element, also after it went through a helper's result variable (a merge whose other ways carry nil:
+	// a use of the merged value on such a way would be a nil dereference, which is C05's business, not a wrong switch)
+	elemOf := func(lk *ssa.Lookup) func(v ssa.Value) bool {
+		var is func(v ssa.Value, d int) bool
+		is = func(v ssa.Value, d int) bool {
+			v = cellValue(v)
+			if isExtractOf(v, lk, 0) {
+				return true
+			}
+			ph, ok := v.(*ssa.Phi)
+			if !ok || d > 3 {
+				return false
+			}
+			some := false
+			for _, e := range ph.Edges {
+				if isNilConst(e) {
+					continue
+				}
+				if !is(e, d+1) {
+					return false
+				}
+				some = true
+			}
+			return some
+		}
+		return func(v ssa.Value) bool { return is(v, 0) }
+	}
+	isF, isC := elemOf(lkF), elemOf(lkC)
 	atoms := []atomDef{
 		boolAtom("targetPresent", func(v ssa.Value) bool { return isExtractOf(stripConv(v), lkF, 1) }),
 		boolAtom("curPresent", func(v ssa.Value) bool { return isExtractOf(stripConv(v), lkC, 1) }),
@@ -264,6 +290,9 @@ func justifiedStore(m *mectx, fn *ssa.Function, st *ssa.Store) (bool, string) {
 		}
 		// lookup by a remembered name: needs (b) or (c) in this function
 		keyIsFuture := isLoadOf(lk.Index, "multiEndpoint.future")
+		if keyIsFuture && fn == m.delayed {
+			continue // the delayed-switch timer: its exact condition is decided by delayedSwitchRule (both re-validation obligations)
+		}
 		// (b): a priority comparison between this endpoint and the current endpoint on the path
 		cmp := false
 		eachInstr(fn, func(in ssa.Instruction) {
@@ -426,9 +455,25 @@ func statusRules(m *mectx, c *Ctx, R func(string) string) {
 			if !imp {
 				// the same fact, stated on the value the status is initialised with (the test may be on a local holding it)
 				var stored []ssa.Value
+				var sts []*ssa.Store
 				for _, a := range m.ai.ByFn[m.newEp] {
 					if a.Field == "endpoint.status" && a.What == "store" && isNew(a.Base) {
-						stored = append(stored, cs.ResolveUnder(a.Instr.(*ssa.Store).Val, cs.Reach(s.Instr))...)
+						sts = append(sts, a.Instr.(*ssa.Store))
+					}
+				}
+				for _, st := range sts {
+					if !mayPrecede(st, s.Instr) {
+						continue
+					}
+					// a store that another store always follows on the way to the call is dead there
+					dead := false
+					for _, later := range sts {
+						if later != st && mayPrecede(st, later) && !mayPrecede(later, st) && dominatesInstr(later, s.Instr) {
+							dead = true
+						}
+					}
+					if !dead {
+						stored = append(stored, cs.ResolveUnder(st.Val, cs.Reach(s.Instr))...)
 					}
 				}
 				imp = len(stored) > 0
